@@ -22,7 +22,7 @@ from mpf.core.platform_batch_light_system import PlatformBatchLight, PlatformBat
 from mpf.core.rgb_color import RGBColor  # noqa: E402
 
 EPS = 1e-6
-COLORS = {"red": (255, 0, 0), "blue": (0, 0, 255), "white": (255, 255, 255), "off": (0, 0, 0)}
+COLORS = {"red": (255, 0, 0), "blue": (0, 0, 255), "white": (255, 255, 255), "off": (0, 0, 0), "gray": (128, 128, 128)}
 KEYPRIO = {"a": 0, "b": 1, "c": 1}
 
 
@@ -151,8 +151,11 @@ class LightDriver(MachineDriver):
                 out.append(["wait"])
             return out
         out = []
-        for key in ("a", "b", "c"):
-            for col in ("red", "blue"):
+        # a single (white) channel only sees shades of white: use white/gray there, red/blue elsewhere
+        cols = ("gray", "white") if self.kind == "w" else ("red", "blue")
+        keys = ("a", "b") if self.backend == "soft" else ("a", "b", "c")
+        for key in keys:
+            for col in cols:
                 for fade in self.fades:
                     out.append(["color", col, fade, key])
         out.append(["off", 0, "a"])
@@ -328,7 +331,11 @@ class LightDriver(MachineDriver):
                             l._last_brightness) for l in lights),
                      tuple(sorted((l.number, v[0], r6(v[1] - now) if v[1] > now else 0) for l, v in sysm.last_state.items())),
                      sysm.dirty_lights_changed.is_set(), sysm.schedule_changed.is_set())
-        return (stack, batch, r6(max(self.busy_until - now, 0)), tuple(sorted((k, v["prio"], v["color"]) for k, v in self.ref.items())),
+        soft = None
+        if self.backend == "soft":
+            hw = self.dev.hw_drivers["white"][0]
+            soft = bool(hw.task is not None and not hw.task.done())
+        return (stack, batch, soft, r6(max(self.busy_until - now, 0)), tuple(sorted((k, v["prio"], v["color"]) for k, v in self.ref.items())),
                 tuple(sorted((str(k), round(v, 4)) for k, v in self.cmds.items())), self.hold_io, len(self.io_wait),
                 self.ref_other, self.rel_timers(), self.task_fp())
 
@@ -346,7 +353,8 @@ def make(light, backend):
     return D
 
 
-PLANS = [("l_rgb", "virtual"), ("l_w", "virtual"), ("l_rgbw", "virtual"), ("l_soft", "soft")]
+PLANS = [("l_rgb", "virtual"), ("l_w", "virtual"), ("l_rgbw", "virtual")]
+SOFT_PLANS = [("l_soft", "soft")]
 BATCH_PLANS = [("l_b1", "batch")]
 
 
@@ -356,7 +364,7 @@ def body(ctx):
     bdepth = 6 if quick else 8
     states = trans = 0
     levels = {}
-    for plans, d, name in ((PLANS, depth, "main"), (BATCH_PLANS, bdepth, "batch")):
+    for plans, d, name in ((PLANS, depth, "main"), (SOFT_PLANS, depth + 1, "soft"), (BATCH_PLANS, bdepth, "batch")):
         res = bfs([make(l, b) for l, b in plans], d, observe=True)
         states += res.states
         trans += res.transitions
@@ -369,10 +377,10 @@ def body(ctx):
         for k, v in res.stats.items():
             ctx.guard(k, v)
     ctx.add(states=states, transitions=trans, traces_validated_against_impl=trans,
-            searches=["%s/%s" % p for p in PLANS + BATCH_PLANS], levels=levels, depth=depth, batch_depth=bdepth,
+            searches=["%s/%s" % p for p in PLANS + SOFT_PLANS + BATCH_PLANS], levels=levels, depth=depth, batch_depth=bdepth,
             exhaustive=True)
     ctx.assume("colours {red, blue, white(on), off}, fades {0, 300 ms}, keys a (priority 0), b and c (priority 1); which of two "
-               "entries with equal priority wins is not judged", "no colour-correction profile, brightness factor 1.0",
+               "entries with equal priority wins is not judged", "no colour-correction profile, brightness factor 1.0", "the software-faded light is searched one level deeper (depth 4 quick / 5 thorough) with keys a, b",
                "batched back end: the harness platform wraps the real PlatformBatchLightSystem; completion of the "
                "platform's update callback is an environment choice")
     return ("fades", "fades_from_rest", "interpolation_points", "removals", "rest_states", "priority_ties_at_rest",
